@@ -38,7 +38,8 @@ type sysMethod struct {
 }
 
 type relayInfo struct {
-	id     int // abstract id used on the op lines (hash = id in the model)
+	cid    int32 // contract id on the chain
+	id     int   // abstract id used on the op lines (hash = id in the model)
 	c      *neotest.Contract
 	groups []int
 	perms  []aPerm
@@ -233,6 +234,18 @@ func buildProxy(sender util.Uint160, pub []byte, tokenTarget util.Uint160, token
 	emit.Opcodes(bw, opcode.NEWARRAY0)
 	emit.Instruction(bw, opcode.CALLT, []byte{0, 0})
 	emit.Opcodes(bw, opcode.RET)
+	// t_<target>_<tf>() any: CALLT of the token (relay 1, target, 1 parameter, token flags tf)
+	var moreTokens []nef.MethodToken
+	for _, tgt := range tokenTargets {
+		for tf := 0; tf < 16; tf++ {
+			add(tokenMethod(tgt, tf), anyT, false)
+			emit.Opcodes(bw, opcode.NEWARRAY0)
+			idx := 1 + len(moreTokens)
+			emit.Instruction(bw, opcode.CALLT, []byte{byte(idx), byte(idx >> 8)})
+			emit.Opcodes(bw, opcode.RET)
+			moreTokens = append(moreTokens, nef.MethodToken{Hash: tokenTarget, Method: tgt, ParamCount: 1, HasReturn: true, CallFlag: callflag.CallFlag(tf)})
+		}
+	}
 	// ls(requested) any: LoadScript([SYSCALL GetCallFlags; RET], requested, [])
 	add("ls", anyT, false, smartcontract.IntegerType)
 	{
@@ -271,9 +284,30 @@ func buildProxy(sender util.Uint160, pub []byte, tokenTarget util.Uint160, token
 		panic(err)
 	}
 	ne.Tokens = []nef.MethodToken{{Hash: tokenTarget, Method: "relay", ParamCount: 1, HasReturn: true, CallFlag: tokenFlags}}
+	ne.Tokens = append(ne.Tokens, moreTokens...)
 	ne.Checksum = ne.CalculateChecksum()
 	return &neotest.Contract{Hash: state.CreateContractHash(sender, ne.Checksum, m.Name), NEF: ne, Manifest: m}, sys, probes
 }
+
+// effectMethods of the relay: what the code does (kind, the system calls it runs) and what the manifest claims (safe).
+var effectMethods = []struct {
+	name, kind string
+	safe       bool
+	seq        []string
+}{
+	{"put", "put", false, []string{interopnames.SystemStorageGetContext, interopnames.SystemStoragePut}},
+	{"sput", "put", true, []string{interopnames.SystemStorageGetContext, interopnames.SystemStoragePut}},
+	{"notify", "notify", false, []string{interopnames.SystemRuntimeNotify}},
+	{"snotify", "notify", true, []string{interopnames.SystemRuntimeNotify}},
+	{"docall", "docall", false, []string{interopnames.SystemRuntimeGetExecutingScriptHash, interopnames.SystemContractCall}},
+	{"scall", "docall", true, []string{interopnames.SystemRuntimeGetExecutingScriptHash, interopnames.SystemContractCall}},
+}
+
+// tokenTargets are the relay-1 methods the proxy reaches through NEF method tokens: 16 tokens (one per flag set) each.
+var tokenTargets = []string{"relay", "s", "put", "sput", "snotify", "scall"}
+
+// tokenMethod is the proxy method that executes CALLT of the token (target, flags).
+func tokenMethod(target string, tf int) string { return fmt.Sprintf("t_%s_%d", target, tf) }
 
 // buildRelay assembles relay number n with the given groups and permissions (relays maps abstract ids of
 // already known relays to hashes, for hash permissions; unknown ids map to a synthetic hash).
@@ -313,6 +347,36 @@ func buildRelay(sender util.Uint160, n int, groups []int, perms []aPerm, hashOfI
 		emit.Syscall(bw, interopnames.SystemRuntimeLoadScript)
 		emit.Opcodes(bw, opcode.RET)
 	}
+	// effect methods, each exposed under a safe-marked and a non-safe name (the manifest, not the code, says "safe"):
+	// put/sput(path): Storage.Put(ctx, "sp", "v")
+	putOff := w.Len()
+	emit.Opcodes(bw, opcode.DROP)
+	emit.Bytes(bw, []byte("v"))
+	emit.Bytes(bw, []byte("sp"))
+	emit.Syscall(bw, interopnames.SystemStorageGetContext)
+	emit.Syscall(bw, interopnames.SystemStoragePut)
+	emit.Opcodes(bw, opcode.NEWARRAY0, opcode.RET)
+	// notify/snotify(path): Runtime.Notify("E", [])
+	notifyOff := w.Len()
+	emit.Opcodes(bw, opcode.DROP, opcode.NEWARRAY0)
+	emit.String(bw, "E")
+	emit.Syscall(bw, interopnames.SystemRuntimeNotify)
+	emit.Opcodes(bw, opcode.NEWARRAY0, opcode.RET)
+	// docall/scall(path): System.Contract.Call(self, "relay", All, [[]])
+	docallOff := w.Len()
+	emit.Opcodes(bw, opcode.DROP, opcode.NEWARRAY0, opcode.PUSH1, opcode.PACK, opcode.PUSH15)
+	emit.String(bw, "relay")
+	emit.Syscall(bw, interopnames.SystemRuntimeGetExecutingScriptHash)
+	emit.Syscall(bw, interopnames.SystemContractCall)
+	emit.Opcodes(bw, opcode.RET)
+	// onNEP17Payment(from, amount, data): Storage.Put(ctx, "cf", GetCallFlags()) — marked safe on even relays
+	payOff := w.Len()
+	emit.Opcodes(bw, opcode.DROP, opcode.DROP, opcode.DROP)
+	emit.Syscall(bw, interopnames.SystemContractGetCallFlags)
+	emit.Bytes(bw, []byte("cf"))
+	emit.Syscall(bw, interopnames.SystemStorageGetContext)
+	emit.Syscall(bw, interopnames.SystemStoragePut)
+	emit.Opcodes(bw, opcode.RET)
 	if w.Err != nil {
 		panic(w.Err)
 	}
@@ -330,6 +394,14 @@ func buildRelay(sender util.Uint160, n int, groups []int, perms []aPerm, hashOfI
 		m.ABI.Methods = append(m.ABI.Methods, manifest.Method{Name: md.name, Offset: 0, Safe: md.safe, ReturnType: smartcontract.ArrayType,
 			Parameters: []manifest.Parameter{{Name: "path", Type: smartcontract.ArrayType}}})
 	}
+	for _, md := range effectMethods {
+		off := map[string]int{"put": putOff, "notify": notifyOff, "docall": docallOff}[md.kind]
+		m.ABI.Methods = append(m.ABI.Methods, manifest.Method{Name: md.name, Offset: off, Safe: md.safe, ReturnType: smartcontract.ArrayType,
+			Parameters: []manifest.Parameter{{Name: "path", Type: smartcontract.ArrayType}}})
+	}
+	m.ABI.Methods = append(m.ABI.Methods, manifest.Method{Name: "onNEP17Payment", Offset: payOff, Safe: n%2 == 0, ReturnType: smartcontract.VoidType,
+		Parameters: []manifest.Parameter{{Name: "from", Type: smartcontract.Hash160Type}, {Name: "amount", Type: smartcontract.IntegerType}, {Name: "data", Type: smartcontract.AnyType}}})
+	m.ABI.Events = append(m.ABI.Events, manifest.Event{Name: "E", Parameters: []manifest.Parameter{}})
 	m.ABI.Methods = append(m.ABI.Methods, manifest.Method{Name: "dyn", Offset: dynOff, ReturnType: smartcontract.AnyType,
 		Parameters: []manifest.Parameter{{Name: "hash", Type: smartcontract.Hash160Type}, {Name: "method", Type: smartcontract.StringType}}})
 	h := state.CreateContractHash(sender, ne.Checksum, m.Name)
@@ -396,6 +468,9 @@ func newWorld(hf int) *world {
 	for i := range plan {
 		plan[i].c = buildRelay(w.acc, plan[i].id, plan[i].groups, plan[i].perms, hashOfID)
 		w.e.DeployContract(w.tb, plan[i].c, nil)
+		if cs := bc.GetContractState(plan[i].c.Hash); cs != nil {
+			plan[i].cid = cs.ID
+		}
 	}
 	w.relays = plan
 	w.proxy, w.sys, w.probes = buildProxy(w.acc, w.pub.Bytes(), ids[1], callflag.All)
